@@ -67,6 +67,9 @@ def run(ctx):
     R.check("C01.0", "TABLE", fs, "group order constant", Nn == N, "SECP256K1_N is not the secp256k1 group order")
     G = (ev.const("bits.ecmath", "SECP256K1_Gx"), ev.const("bits.ecmath", "SECP256K1_Gy"))
 
+    # no field helper refuses an operand while signing with a valid key (shared with C02 / C03 / C12)
+    from . import c03 as _c03
+    _c03.check_operand_ranges(ctx, "C01.10", "bits.ecmath.sign", pre=[tm.cmp("ge", key, 1), tm.cmp("lt", key, N)], what="every key in [1, n-1] and every digest")
     rets = [e for e in s.returns() if e.value is not None]  # the implicit `return None` after `while True:` is unreachable
     fin_names = set()
     if len(rets) == 1 and isinstance(rets[0].value, (tuple, list)):
